@@ -25,10 +25,14 @@ def jsonLines (t : Tree) (vis : Nat → String → Bool) (ks : List JKey) (docke
     List (String × String) :=
   let sorted := sortStrs (ks.map (fun k => tagName k.key))
   -- a key whose value is empty is left out under `,omitempty` (the filled value has no empty leaf: only "zero" is empty)
-  -- (a struct value is never "empty" for encoding/json; `Inner` is the one struct type of the field-type palette)
+  -- (a struct value is never "empty" for encoding/json; `Inner` is the one struct type of the JSON field-type palette)
   let structTyped (name : String) : Bool :=
     match (leavesPtr [] false 0 t).find? (fun l => l.2.2.1.name = name && !l.2.2.1.skip && vis l.2.1 name) with
-    | some l => l.2.2.1.ptype == "Inner"
+    | some l => l.2.2.1.ptype == "Inner" ||
+        -- a non-empty ARRAY is never "empty" either (only arrays of length 0 are)
+        (match l.2.2.1.ptype.toList with
+         | '[' :: c :: _ => c.isDigit && c != '0'
+         | _ => false)
     | none => false
   let keep (k : JKey) (v : String) : Option String :=
     if omitEmpty k.key && v == "zero" && !structTyped k.name then none else some (tagName k.key ++ "=" ++ v)
